@@ -65,10 +65,10 @@ type c07In struct {
 func init() {
 	run.Register(&run.Check{
 		ID: "C07", Title: "Compilation is total",
-		LevelText: "Exploration: thousands (quick) to hundreds of thousands (thorough) of generated programs — grammar programs over the full language (valid and invalid), their byte/token mutations, the repository's own scripts and mutations of them, a keyword × context × value-shape matrix (every reserved/style/config keyword with scalar, null, map, array, array-with-comment, import, substitution, spread, block string, glob, suspend values on objects, edges, arrowheads, classes, d2-config, boards) and hostile non-ASCII names under globs — each with an in-memory import file set (present, missing, cyclic, directory, unparsable) are compiled with d2compiler.Compile (no layout) in crash-isolated workers; the monitor refutes on panic/worker death, CPU budget exceeded, both-or-neither of (graph, error), a non-ParseError or empty error, or an error whose range is not inside one of the input files.",
-		Technique: "runtime monitoring: totality + CPU-time termination + error-position oracle over generated hostile programs and import sets in crash-isolated workers",
-		DesignRef: "§4 C07",
-		Rule:      "cases: gen.Program(syntax|lang) ± gen.Mutate, corpus ± mutation, keyword×context×shape matrix, targeted glob/spread/null interplay programs, each with a generated import set; distinct by sha256(text+files); non-trivial when compilation produced a graph with ≥1 object or ≥1 positioned error",
+		LevelText:        "Exploration: thousands (quick) to hundreds of thousands (thorough) of generated programs — grammar programs over the full language (valid and invalid), their byte/token mutations, the repository's own scripts and mutations of them, a keyword × context × value-shape matrix (every reserved/style/config keyword with scalar, null, map, array, array-with-comment, import, substitution, spread, block string, glob, suspend values on objects, edges, arrowheads, classes, d2-config, boards) and hostile non-ASCII names under globs — each with an in-memory import file set (present, missing, cyclic, directory, unparsable) are compiled with d2compiler.Compile (no layout) in crash-isolated workers; the monitor refutes on panic/worker death, CPU budget exceeded, both-or-neither of (graph, error), a non-ParseError or empty error, or an error whose range is not inside one of the input files.",
+		Technique:        "runtime monitoring: totality + CPU-time termination + error-position oracle over generated hostile programs and import sets in crash-isolated workers",
+		DesignRef:        "§4 C07",
+		Rule:             "cases: gen.Program(syntax|lang) ± gen.Mutate, corpus ± mutation, keyword×context×shape matrix, targeted glob/spread/null interplay programs, each with a generated import set; distinct by sha256(text+files); non-trivial when compilation produced a graph with ≥1 object or ≥1 positioned error",
 		PanicIsViolation: true, HangIsViolation: true, CPUBudget: 30, Chunk: 48,
 		MinNontrivial: 200,
 		Gen:           genC07,
@@ -318,7 +318,7 @@ func c07Interplay(r *gen.R) string {
 		case 6:
 			sb.WriteString(nm() + " " + gen.Pick(r, gen.Arrows) + " " + nm() + r.Str("", ": l", ": {...${m}}", ": ${m}", ": ${arr}", ": null") + "\n")
 		case 7:
-			sb.WriteString(nm() + ": {\n  ..." + r.Str("${m}", "${a}", "@x", "${d}") + "\n  " + gen.Pick(r, pats) + r.Str(".shape: circle", ": null", " -> _." + nm()) + "\n  " + nm() + r.Str("", ": null", " -> " + nm()) + "\n}\n")
+			sb.WriteString(nm() + ": {\n  ..." + r.Str("${m}", "${a}", "@x", "${d}") + "\n  " + gen.Pick(r, pats) + r.Str(".shape: circle", ": null", " -> _."+nm()) + "\n  " + nm() + r.Str("", ": null", " -> "+nm()) + "\n}\n")
 		case 8:
 			sb.WriteString(r.Str("layers", "scenarios", "steps") + ": {\n  " + nm() + ": {\n    " + r.Str("...${m}", nm()+": null", gen.Pick(r, pats)+".shape: circle", nm()+" -> "+nm(), "...@x", "vars: {a: 2}", "(* -> *)[*]: null") + "\n  }\n  " + nm() + r.Str(": null", ": x", ": {}", ": @x", ": [1]", "") + "\n}\n")
 		case 9:
@@ -332,9 +332,9 @@ func c07Interplay(r *gen.R) string {
 		case 13:
 			sb.WriteString("vars: {" + r.Str("a: null", "m: null", "m.b: 2", "...${m}", "d2-config: {...${m}}", "d2-config: ${m}", "d2-legend: {...${d}}", "x: ${x}") + "}\n")
 		case 14:
-			sb.WriteString(nm() + ": {" + r.Str("shape: sql_table", "shape: class", "shape: sequence_diagram", "grid-rows: 2") + "; " + nm() + ": " + r.Str("int", "null", "{constraint: [a; \"\"\" c \"\"\"]}", "${m}") + "; " + gen.Pick(r, pats) + r.Str(".shape: circle", ": null", " -> " + nm()) + "}\n")
+			sb.WriteString(nm() + ": {" + r.Str("shape: sql_table", "shape: class", "shape: sequence_diagram", "grid-rows: 2") + "; " + nm() + ": " + r.Str("int", "null", "{constraint: [a; \"\"\" c \"\"\"]}", "${m}") + "; " + gen.Pick(r, pats) + r.Str(".shape: circle", ": null", " -> "+nm()) + "}\n")
 		default:
-			sb.WriteString(r.Str("_", "_._", "x._") + "." + nm() + r.Str("", ": null", " -> " + nm()) + "\n")
+			sb.WriteString(r.Str("_", "_._", "x._") + "." + nm() + r.Str("", ": null", " -> "+nm()) + "\n")
 		}
 	}
 	return sb.String()
@@ -432,18 +432,18 @@ func c07Len(s string, u16 bool) int {
 // substitution. The first few matching cases per class are still executed and judged
 // normally, only inside a CPU-limited child process; the rest are counted as not executed.
 //
-//   (two further classes, `**.a: ${v}` with vars and a class referencing a class, were
-//   repaired in /repo — commits ddb7d26b9, f2a99de7b — and are executed normally again.)
-//   - multi-glob-with-spread-substitution: a `**`/`***` key with a substitution in its
-//     value, in a program with a spread substitution `...${m}` (in that value or in any
-//     map the glob applies to: `vars: {m: {p: q}}\n**.a: ${m}\nl: {...${m}}`): `vars: {m: {p: q}}\nx\n***.a: {...${m}}` — resolving the spread
-//     re-applies the recursive glob, which creates a deeper `a` holding a new spread
-//     placeholder, whose resolution re-applies the glob, and so on.
-//   - glob-inside-vars-with-substitution: see below.
-//   - multi-glob-with-import-value: a `**`/`***` key whose value is an import
-//     (`layers: {l: {z}}\n***.t: @x\nq: a.b.c`): the lazily re-applied glob also matches
-//     the fields its own import created (q.t.k.t.k ...), multiplying with every later
-//     declaration and board; a 60-byte program burns minutes of CPU.
+//	(two further classes, `**.a: ${v}` with vars and a class referencing a class, were
+//	repaired in /repo — commits ddb7d26b9, f2a99de7b — and are executed normally again.)
+//	- multi-glob-with-spread-substitution: a `**`/`***` key with a substitution in its
+//	  value, in a program with a spread substitution `...${m}` (in that value or in any
+//	  map the glob applies to: `vars: {m: {p: q}}\n**.a: ${m}\nl: {...${m}}`): `vars: {m: {p: q}}\nx\n***.a: {...${m}}` — resolving the spread
+//	  re-applies the recursive glob, which creates a deeper `a` holding a new spread
+//	  placeholder, whose resolution re-applies the glob, and so on.
+//	- glob-inside-vars-with-substitution: see below.
+//	- multi-glob-with-import-value: a `**`/`***` key whose value is an import
+//	  (`layers: {l: {z}}\n***.t: @x\nq: a.b.c`): the lazily re-applied glob also matches
+//	  the fields its own import created (q.t.k.t.k ...), multiplying with every later
+//	  declaration and board; a 60-byte program burns minutes of CPU.
 func c07HangTrigger(text string, files map[string]string) string {
 	srcs := append([]string{text}, c07SortedValues(files)...)
 	// class-reference-inside-class-body: a `class` reference on an object nested inside a
